@@ -81,7 +81,10 @@ def fmt(v, top=True):
 
 
 class Interp:
-    def __init__(self, inputs=(), flags="", max_steps=20000):
+    def __init__(self, inputs=(), flags="", max_steps=20000, effects_in_lambdas=False):
+        # effects_in_lambdas: only for programs in which the moment a lambda body runs cannot be
+        # observed (see C01's deferred-printing tier)
+        self.lambda_purity = "fn" if effects_in_lambdas else True
         self.flags = flags
         self.range_start = 0 if "M" in flags else 1
         self.range_end = 0 if "m" in flags else 1
@@ -146,7 +149,7 @@ class Interp:
         self.context.append(list(lam_stack) if len(lam_stack) != 1 else lam_stack[0])
         self.inputs.append([list(lam_stack)[::-1], 0])
         try:
-            self.run_seq(fn.body, lam_stack, pure=True)
+            self.run_seq(fn.body, lam_stack, pure=self.lambda_purity)
             return self.pop(lam_stack)
         finally:
             self.context.pop()
